@@ -97,7 +97,9 @@ func (f *Fragmentation) Process(id uint32, first, last uint16, more bool, vv buf
 	}
 	f.mu.Unlock()
 
+	verifYield(1)
 	res, done, consumed, err := r.process(first, last, more, vv)
+	verifYield(2)
 
 	f.mu.Lock()
 	f.size += consumed
